@@ -53,46 +53,55 @@ Section TyInd.
 End TyInd.
 
 (* ---- relations on results ------------------------------------------------ *)
-Definition rel_res {A S1 S2} (rho : S1 -> S2 -> Prop) (m1 : res A S1) (m2 : res A S2) : Prop :=
-  match m1, m2 with
-  | Ok a s1, Ok b s2 => a = b /\ rho s1 s2
-  | Err e s1, Err f s2 => e = f /\ rho s1 s2
-  | _, _ => False
+(* [bd = true]: both runs succeed or fail alike (same value / same error, related
+   states).  [bd = false]: only successes of the first run are tracked — used
+   for "a successful read does not depend on what follows". *)
+Definition rel_res {A S1 S2} (bd : bool) (rho : S1 -> S2 -> Prop) (m1 : res A S1) (m2 : res A S2) : Prop :=
+  match m1 with
+  | Ok a s1 => match m2 with Ok b s2 => a = b /\ rho s1 s2 | Err _ _ => False end
+  | Err e s1 =>
+      if bd then match m2 with Err f s2 => e = f /\ rho s1 s2 | Ok _ _ => False end
+      else True
   end.
+
+Section WithDirection.
+Variable bd : bool.
 
 Lemma rel_bind {A B S1 S2} (rho : S1 -> S2 -> Prop)
       (m1 : res A S1) (m2 : res A S2) (f1 : A -> S1 -> res B S1) (f2 : A -> S2 -> res B S2) :
-  rel_res rho m1 m2 ->
-  (forall a s1 s2, rho s1 s2 -> rel_res rho (f1 a s1) (f2 a s2)) ->
-  rel_res rho (bind m1 f1) (bind m2 f2).
+  rel_res bd rho m1 m2 ->
+  (forall a s1 s2, rho s1 s2 -> rel_res bd rho (f1 a s1) (f2 a s2)) ->
+  rel_res bd rho (bind m1 f1) (bind m2 f2).
 Proof.
-  destruct m1 as [a s1|e s1], m2 as [b s2|f s2]; cbn; intros H Hf; try contradiction.
+  unfold rel_res. destruct m1 as [a s1|e s1], m2 as [b s2|f s2]; cbn [bind]; intros H Hf;
+    try contradiction; try exact H.
   - destruct H as [-> H]. apply Hf, H.
-  - exact H.
+  - destruct bd; [contradiction|exact I].
 Qed.
 
 Lemma rel_rmap {A B S1 S2} (rho : S1 -> S2 -> Prop) (g : A -> B)
       (m1 : res A S1) (m2 : res A S2) :
-  rel_res rho m1 m2 -> rel_res rho (rmap g m1) (rmap g m2).
+  rel_res bd rho m1 m2 -> rel_res bd rho (rmap g m1) (rmap g m2).
 Proof.
-  destruct m1, m2; cbn; intros H; try contradiction; destruct H as [-> H]; auto.
+  unfold rel_res. destruct m1, m2; cbn [rmap]; intros H; try contradiction; try exact H.
+  destruct H as [-> H]; auto.
 Qed.
 
 Lemma rel_ok {A S1 S2} (rho : S1 -> S2 -> Prop) (a : A) s1 s2 :
-  rho s1 s2 -> rel_res rho (Ok a s1) (Ok a s2).
+  rho s1 s2 -> rel_res bd rho (Ok a s1) (Ok a s2).
 Proof. cbn; auto. Qed.
 
 Lemma rel_err {A S1 S2} (rho : S1 -> S2 -> Prop) e s1 s2 :
-  rho s1 s2 -> rel_res rho (@Err A _ e s1) (@Err A _ e s2).
-Proof. cbn; auto. Qed.
+  rho s1 s2 -> rel_res bd rho (@Err A _ e s1) (@Err A _ e s2).
+Proof. unfold rel_res. destruct bd; auto. Qed.
 
 (* ---- readers ---------------------------------------------------------------- *)
 Record rops_rel {R1 R2} (rho : R1 -> R2 -> Prop) (o1 : rops R1) (o2 : rops R2) : Prop := {
-  rr_ensure : forall n r1 r2, rho r1 r2 -> rel_res rho (r_ensure o1 n r1) (r_ensure o2 n r2);
-  rr_read1 : forall r1 r2, rho r1 r2 -> rel_res rho (r_read1 o1 r1) (r_read1 o2 r2);
-  rr_readn : forall n r1 r2, rho r1 r2 -> rel_res rho (r_readn o1 n r1) (r_readn o2 n r2);
-  rr_skip : forall n r1 r2, rho r1 r2 -> rel_res rho (r_skip o1 n r1) (r_skip o2 n r2);
-  rr_gethandle : forall h r1 r2, rho r1 r2 -> rel_res rho (r_gethandle o1 h r1) (r_gethandle o2 h r2)
+  rr_ensure : forall n r1 r2, rho r1 r2 -> rel_res bd rho (r_ensure o1 n r1) (r_ensure o2 n r2);
+  rr_read1 : forall r1 r2, rho r1 r2 -> rel_res bd rho (r_read1 o1 r1) (r_read1 o2 r2);
+  rr_readn : forall n r1 r2, rho r1 r2 -> rel_res bd rho (r_readn o1 n r1) (r_readn o2 n r2);
+  rr_skip : forall n r1 r2, rho r1 r2 -> rel_res bd rho (r_skip o1 n r1) (r_skip o2 n r2);
+  rr_gethandle : forall h r1 r2, rho r1 r2 -> rel_res bd rho (r_gethandle o1 h r1) (r_gethandle o2 h r2)
 }.
 
 Section ReadSim.
@@ -100,7 +109,7 @@ Section ReadSim.
   Hypothesis Hops : rops_rel rho o1 o2.
 
   Lemma read_scalar_payload_sim s p r1 r2 :
-    rho r1 r2 -> rel_res rho (read_scalar_payload o1 s p r1) (read_scalar_payload o2 s p r2).
+    rho r1 r2 -> rel_res bd rho (read_scalar_payload o1 s p r1) (read_scalar_payload o2 s p r2).
   Proof.
     intros H. unfold read_scalar_payload.
     destruct s; try (apply rel_ok; exact H);
@@ -110,7 +119,7 @@ Section ReadSim.
   Qed.
 
   Lemma read_scalar_sim s r1 r2 :
-    rho r1 r2 -> rel_res rho (read_scalar o1 s r1) (read_scalar o2 s r2).
+    rho r1 r2 -> rel_res bd rho (read_scalar o1 s r1) (read_scalar o2 s r2).
   Proof.
     intros H. unfold read_scalar. apply rel_bind.
     - apply (rr_read1 _ _ _ Hops); exact H.
@@ -120,12 +129,12 @@ Section ReadSim.
   Qed.
 
   Lemma read_u64_sim r1 r2 :
-    rho r1 r2 -> rel_res rho (read_u64 o1 r1) (read_u64 o2 r2).
+    rho r1 r2 -> rel_res bd rho (read_u64 o1 r1) (read_u64 o2 r2).
   Proof. intros H. unfold read_u64. apply rel_rmap, read_scalar_sim, H. Qed.
 
   Lemma dec_with_sim m dp1 dp2 r1 r2 :
-    (forall p s1 s2, rho s1 s2 -> rel_res rho (dp1 p s1) (dp2 p s2)) ->
-    rho r1 r2 -> rel_res rho (dec_with o1 m dp1 r1) (dec_with o2 m dp2 r2).
+    (forall p s1 s2, rho s1 s2 -> rel_res bd rho (dp1 p s1) (dp2 p s2)) ->
+    rho r1 r2 -> rel_res bd rho (dec_with o1 m dp1 r1) (dec_with o2 m dp2 r2).
   Proof.
     intros Hdp H. unfold dec_with. apply rel_bind.
     - apply (rr_read1 _ _ _ Hops); exact H.
@@ -133,7 +142,7 @@ Section ReadSim.
   Qed.
 
   Lemma skip_entry_sim r1 r2 :
-    rho r1 r2 -> rel_res rho (skip_entry o1 r1) (skip_entry o2 r2).
+    rho r1 r2 -> rel_res bd rho (skip_entry o1 r1) (skip_entry o2 r2).
   Proof.
     intros H. unfold skip_entry. apply rel_bind; [apply read_u64_sim; exact H|].
     intros; apply (rr_skip _ _ _ Hops); assumption.
@@ -142,7 +151,7 @@ Section ReadSim.
   (* loops *)
   Section Loop.
     Context {X : Type} (f1 : X -> R1 -> res X R1) (f2 : X -> R2 -> res X R2).
-    Hypothesis Hf : forall x s1 s2, rho s1 s2 -> rel_res rho (f1 x s1) (f2 x s2).
+    Hypothesis Hf : forall x s1 s2, rho s1 s2 -> rel_res bd rho (f1 x s1) (f2 x s2).
 
     Let g1 := fun st : X * R1 =>
                 match f1 (fst st) (snd st) with
@@ -152,45 +161,56 @@ Section ReadSim.
                 | Ok x' r' => inl (x', r') | Err e r' => inr (e, r') end.
 
     Definition rel_sum (a : (X * R1) + (N * R1)) (b : (X * R2) + (N * R2)) : Prop :=
-      match a, b with
-      | inl (x, s1), inl (y, s2) => x = y /\ rho s1 s2
-      | inr (e, s1), inr (f, s2) => e = f /\ rho s1 s2
-      | _, _ => False
+      match a with
+      | inl (x, s1) => match b with inl (y, s2) => x = y /\ rho s1 s2 | inr _ => False end
+      | inr (e, s1) =>
+          if bd then match b with inr (f, s2) => e = f /\ rho s1 s2 | inl _ => False end
+          else True
       end.
 
     Lemma g_sim x s1 s2 : rho s1 s2 -> rel_sum (g1 (x, s1)) (g2 (x, s2)).
     Proof.
-      intros H. unfold g1, g2; cbn [fst snd]. specialize (Hf x s1 s2 H).
+      intros H. unfold g1, g2; cbn [fst snd]. specialize (Hf x s1 s2 H). unfold rel_res in Hf.
       destruct (f1 x s1), (f2 x s2); cbn in *; try contradiction; exact Hf.
+    Qed.
+
+    Lemma rel_sum_bind a b (k1 : X * R1 -> (X * R1) + (N * R1)) (k2 : X * R2 -> (X * R2) + (N * R2)) :
+      rel_sum a b ->
+      (forall x s1 s2, rho s1 s2 -> rel_sum (k1 (x, s1)) (k2 (x, s2))) ->
+      rel_sum (match a with inl p => k1 p | inr e => inr e end)
+              (match b with inl p => k2 p | inr e => inr e end).
+    Proof.
+      intros H Hk. destruct a as [[x1 t1]|[e1 t1]], b as [[x2 t2]|[e2 t2]]; cbn in H |- *;
+        try contradiction; try exact H.
+      - destruct H as [-> H]. apply Hk, H.
+      - destruct bd; [contradiction|exact I].
     Qed.
 
     Lemma iter_pos_sim p : forall x s1 s2,
       rho s1 s2 -> rel_sum (iter_pos g1 p (x, s1)) (iter_pos g2 p (x, s2)).
     Proof.
       induction p as [p IH|p IH|]; intros x s1 s2 H; cbn [iter_pos].
-      - pose proof (g_sim x s1 s2 H) as Hg.
-        destruct (g1 (x, s1)) as [[x1 t1]|[e1 t1]], (g2 (x, s2)) as [[x2 t2]|[e2 t2]];
-          cbn in Hg; try contradiction; [|exact Hg].
-        destruct Hg as [-> Hg]. pose proof (IH x2 t1 t2 Hg) as H1.
-        destruct (iter_pos g1 p (x2, t1)) as [[y1 u1]|[e1 u1]],
-                 (iter_pos g2 p (x2, t2)) as [[y2 u2]|[e2 u2]];
-          cbn in H1; try contradiction; [|exact H1].
-        destruct H1 as [-> H1]. apply IH, H1.
-      - pose proof (IH x s1 s2 H) as H1.
-        destruct (iter_pos g1 p (x, s1)) as [[y1 u1]|[e1 u1]],
-                 (iter_pos g2 p (x, s2)) as [[y2 u2]|[e2 u2]];
-          cbn in H1; try contradiction; [|exact H1].
-        destruct H1 as [-> H1]. apply IH, H1.
+      - apply (rel_sum_bind (g1 (x, s1)) (g2 (x, s2))
+                 (fun p1 => match iter_pos g1 p p1 with inl x' => iter_pos g1 p x' | inr e => inr e end)
+                 (fun p2 => match iter_pos g2 p p2 with inl x' => iter_pos g2 p x' | inr e => inr e end)).
+        + apply g_sim, H.
+        + intros y t1 t2 Ht.
+          apply (rel_sum_bind (iter_pos g1 p (y, t1)) (iter_pos g2 p (y, t2)) (iter_pos g1 p) (iter_pos g2 p)).
+          * apply IH, Ht.
+          * intros; apply IH; assumption.
+      - apply (rel_sum_bind (iter_pos g1 p (x, s1)) (iter_pos g2 p (x, s2)) (iter_pos g1 p) (iter_pos g2 p)).
+        + apply IH, H.
+        + intros; apply IH; assumption.
       - apply g_sim, H.
     Qed.
 
     Lemma loop_res_sim n x r1 r2 :
-      rho r1 r2 -> rel_res rho (loop_res n f1 x r1) (loop_res n f2 x r2).
+      rho r1 r2 -> rel_res bd rho (loop_res n f1 x r1) (loop_res n f2 x r2).
     Proof.
       intros H. unfold loop_res. fold g1 g2.
       destruct n as [|p]; cbn [iter_N].
       - cbn. auto.
-      - pose proof (iter_pos_sim p x r1 r2 H) as H1.
+      - pose proof (iter_pos_sim p x r1 r2 H) as H1. unfold rel_res.
         destruct (iter_pos g1 p (x, r1)) as [[y1 u1]|[e1 u1]],
                  (iter_pos g2 p (x, r2)) as [[y2 u2]|[e2 u2]];
           cbn in H1 |- *; try contradiction; exact H1.
@@ -204,20 +224,28 @@ Definition brel {R1 R2} (rho : R1 -> R2 -> Prop) (b1 : Bounded R1) (b2 : Bounded
 
 Lemma b_lift_sim {A R1 R2} (rho : R1 -> R2 -> Prop) (b1 : Bounded R1) (b2 : Bounded R2) adv
       (m1 : res A R1) (m2 : res A R2) :
-  brel rho b1 b2 -> rel_res rho m1 m2 -> rel_res (brel rho) (b_lift b1 adv m1) (b_lift b2 adv m2).
+  brel rho b1 b2 -> rel_res bd rho m1 m2 -> rel_res bd (brel rho) (b_lift b1 adv m1) (b_lift b2 adv m2).
 Proof.
   intros (Hi & Hs & Hx) H. unfold b_lift, b_with.
-  destruct m1, m2; cbn in H |- *; try contradiction; destruct H as [-> H];
-    (split; [reflexivity|]); unfold brel, b_inner, b_size, b_index in *; cbn; rewrite Hs, Hx; auto.
+  unfold rel_res in *. destruct m1, m2; try contradiction.
+  - destruct H as [-> H]. split; [reflexivity|].
+    unfold brel, b_inner, b_size, b_index in *; cbn; rewrite Hs, Hx; auto.
+  - destruct bd; [contradiction|exact I].
+  - destruct bd; [|exact I]. destruct H as [-> H]. split; [reflexivity|].
+    unfold brel, b_inner, b_size, b_index in *; cbn; rewrite Hs, Hx; auto.
 Qed.
 
 Lemma b_keep_sim {A R1 R2} (rho : R1 -> R2 -> Prop) (b1 : Bounded R1) (b2 : Bounded R2)
       (m1 : res A R1) (m2 : res A R2) :
-  brel rho b1 b2 -> rel_res rho m1 m2 -> rel_res (brel rho) (b_keep b1 m1) (b_keep b2 m2).
+  brel rho b1 b2 -> rel_res bd rho m1 m2 -> rel_res bd (brel rho) (b_keep b1 m1) (b_keep b2 m2).
 Proof.
   intros (Hi & Hs & Hx) H. unfold b_keep, b_with.
-  destruct m1, m2; cbn in H |- *; try contradiction; destruct H as [-> H];
-    (split; [reflexivity|]); unfold brel, b_inner, b_size, b_index in *; cbn; rewrite Hs, Hx; auto.
+  unfold rel_res in *. destruct m1, m2; try contradiction.
+  - destruct H as [-> H]. split; [reflexivity|].
+    unfold brel, b_inner, b_size, b_index in *; cbn; rewrite Hs, Hx; auto.
+  - destruct bd; [contradiction|exact I].
+  - destruct bd; [|exact I]. destruct H as [-> H]. split; [reflexivity|].
+    unfold brel, b_inner, b_size, b_index in *; cbn; rewrite Hs, Hx; auto.
 Qed.
 
 Lemma bounded_rops_rel {R1 R2} (rho : R1 -> R2 -> Prop) o1 o2 :
@@ -242,7 +270,7 @@ Qed.
 
 Lemma bounded_read_padding_sim {R1 R2} (rho : R1 -> R2 -> Prop) o1 o2 b1 b2 :
   rops_rel rho o1 o2 -> brel rho b1 b2 ->
-  rel_res (brel rho) (bounded_read_padding o1 b1) (bounded_read_padding o2 b2).
+  rel_res bd (brel rho) (bounded_read_padding o1 b1) (bounded_read_padding o2 b2).
 Proof.
   intros Hops H. pose proof H as (Hi & Hs & Hx). unfold bounded_read_padding.
   rewrite Hs, Hx. apply b_lift_sim; [exact H|]. apply (rr_skip _ _ _ Hops), Hi.
@@ -251,22 +279,24 @@ Qed.
 Lemma framed_read_sim {R1 R2} (rho : R1 -> R2 -> Prop) o1 o2
       (d1 : Bounded R1 -> res val (Bounded R1)) (d2 : Bounded R2 -> res val (Bounded R2)) :
   rops_rel rho o1 o2 ->
-  (forall b1 b2, brel rho b1 b2 -> rel_res (brel rho) (d1 b1) (d2 b2)) ->
-  forall r1 r2, rho r1 r2 -> rel_res rho (framed_read o1 d1 r1) (framed_read o2 d2 r2).
+  (forall b1 b2, brel rho b1 b2 -> rel_res bd (brel rho) (d1 b1) (d2 b2)) ->
+  forall r1 r2, rho r1 r2 -> rel_res bd rho (framed_read o1 d1 r1) (framed_read o2 d2 r2).
 Proof.
   intros Hops Hd r1 r2 Hr. unfold framed_read.
   apply rel_bind; [apply read_u64_sim; assumption|]. intros sz y1 y2 Hy.
   assert (Hb : brel rho (b_make y1 sz) (b_make y2 sz))
     by (unfold brel, b_make, b_inner, b_size, b_index; cbn; auto).
-  pose proof (Hd _ _ Hb) as H.
+  pose proof (Hd _ _ Hb) as H. unfold rel_res in H |- *.
   destruct (d1 (b_make y1 sz)) as [v1 c1|e1 c1], (d2 (b_make y2 sz)) as [v2 c2|e2 c2];
-    cbn in H; try contradiction.
+    try contradiction.
   - destruct H as [-> Hc].
-    pose proof (bounded_read_padding_sim rho o1 o2 c1 c2 Hops Hc) as Hp.
-    destruct (bounded_read_padding o1 c1), (bounded_read_padding o2 c2);
-      cbn in Hp |- *; try contradiction; destruct Hp as [He Hp];
-      (split; [first [reflexivity|exact He]|apply Hp]).
-  - destruct H as [-> Hc]. cbn. split; auto. apply Hc.
+    pose proof (bounded_read_padding_sim rho o1 o2 c1 c2 Hops Hc) as Hp. unfold rel_res in Hp.
+    destruct (bounded_read_padding o1 c1), (bounded_read_padding o2 c2); try contradiction.
+    + destruct Hp as [_ Hp]. split; [reflexivity|apply Hp].
+    + destruct bd; [contradiction|exact I].
+    + destruct bd; [|exact I]. destruct Hp as [-> Hp]. split; [reflexivity|apply Hp].
+  - destruct bd; [contradiction|exact I].
+  - destruct bd; [|exact I]. destruct H as [-> Hc]. split; [reflexivity|apply Hc].
 Qed.
 
 Lemma find_entry_sim {R1 R2} (rho : R1 -> R2 -> Prop) o1 o2 id
@@ -274,9 +304,9 @@ Lemma find_entry_sim {R1 R2} (rho : R1 -> R2 -> Prop) o1 o2 id
   rops_rel rho o1 o2 ->
   Forall2 (fun (e1 : N * bool * (R1 -> res val R1)) (e2 : N * bool * (R2 -> res val R2)) =>
              fst e1 = fst e2 /\
-             forall r1 r2, rho r1 r2 -> rel_res rho (snd e1 r1) (snd e2 r2)) es1 es2 ->
+             forall r1 r2, rho r1 r2 -> rel_res bd rho (snd e1 r1) (snd e2 r2)) es1 es2 ->
   forall slots r1 r2, rho r1 r2 ->
-  rel_res rho (find_entry o1 id es1 slots r1) (find_entry o2 id es2 slots r2).
+  rel_res bd rho (find_entry o1 id es1 slots r1) (find_entry o2 id es2 slots r2).
 Proof.
   intros Hops H. induction H as [|[[eid1 act1] rd1] [[eid2 act2] rd2] es1' es2' [He Hrd] _ IH];
     intros slots r1 r2 Hr; cbn [find_entry].
@@ -296,7 +326,7 @@ Qed.
 Theorem decp_sim : forall (t : ty) (p : N) (R1 R2 : Type) (rho : R1 -> R2 -> Prop)
                           (o1 : rops R1) (o2 : rops R2),
     rops_rel rho o1 o2 ->
-    forall r1 r2, rho r1 r2 -> rel_res rho (decp t p R1 o1 r1) (decp t p R2 o2 r2).
+    forall r1 r2, rho r1 r2 -> rel_res bd rho (decp t p R1 o1 r1) (decp t p R2 o2 r2).
 Proof.
   induction t using ty_ind'; intros p R1 R2 rho o1 o2 Hops r1 r2 Hr; cbn [decp].
   - (* scalar *) apply rel_rmap, read_scalar_payload_sim; assumption.
@@ -380,3 +410,4 @@ Proof.
     apply framed_read_sim; [assumption| |exact Hy]. intros b1 b2 Hb.
     apply dec_with_sim; [exact Hbops| |exact Hb]. intros p c1 c2 Hc. apply Ht'; assumption.
 Qed.
+End WithDirection.
